@@ -105,6 +105,8 @@ func main() {
 		writeJSON(*out, OrdersMode(*seed, *n, *tier, *driver, *keep))
 	case "orders-replay":
 		writeJSON(*out, OrdersReplay(*trace, *driver, *keep))
+	case "valid":
+		writeJSON(*out, ValidMode(*seed, *n, *tier, *driver, *keep))
 	case "campaign":
 		res := Campaign(*profile, *seed, *n, *tier, *driver, *keep, *par)
 		writeJSON(*out, res)
